@@ -312,7 +312,7 @@ pub fn run(tier: Tier, _part: bool) -> i32 {
     rep.set("deviation_bound_max", json!(tot.max_bound));
     rep.set("evaluations", json!(tot.execs));
     rep.set("distinct_nontrivial", json!(tot.with_switch));
-    rep.set("rule", json!("one evaluation = one complete schedule (<= bound deviations) of: 0-2 live routes (callback / crossbeam forwarding, optionally one message in flight), stopped by shutdown() from 1-2 tasks or by dropping the proxy, optionally racing an add_route from another task, followed by further sends on the old routes and a wait for quiescence"));
+    rep.set("rule", json!("one evaluation = one complete schedule (<= bound deviations) of: 0-2 live routes (callback / crossbeam forwarding, optionally one message in flight), stopped by shutdown() from 1-2 tasks or by dropping the proxy, optionally racing an add_route from another task, followed by further sends on the old routes and a wait for quiescence; schedules are distinct by construction (the depth-first search never repeats a choice sequence) and a schedule counts as non-trivial when it contains at least one context switch; enumerated cases are distinct by construction"));
     rep.assume("'after the proxy has been dropped' is checked at quiescence (no task can run), as the statement gives no synchronisation point");
     rep.finish()
 }
